@@ -249,8 +249,8 @@ void leak_scan_now(int unused)
 		if (!n) continue;
 		if (n > g_norm_alloc) {
 			g_norm_alloc = n * 2;
-			g_norm = realloc(g_norm, g_norm_alloc);
-			g_map = realloc(g_map, g_norm_alloc * sizeof(size_t));
+			g_norm = persistent_realloc(g_norm, g_norm_alloc);
+			g_map = persistent_realloc(g_map, g_norm_alloc * sizeof(size_t));
 			if (!g_norm || !g_map) die("oom");
 		}
 		size_t m = normalise(txt, n, g_norm, g_map);
